@@ -1,7 +1,7 @@
 (* Executable glue for the C10 correspondence: the parameters the code has *now* (from Generated/SufficiencyGen.v),
    binary64 helpers for the threshold tables, run-length encoded frames, and the comparison functions. *)
-From Coq Require Import ZArith QArith List Bool PrimFloat Uint63.
-From V Require Import Model.CasesLib Model.Sufficiency Generated.SufficiencyGen.
+From Coq Require Import ZArith QArith Qabs List Bool PrimFloat Uint63.
+From V Require Import Model.CasesLib Model.Sufficiency Model.BillingRows Generated.SufficiencyGen.
 Import ListNotations.
 Open Scope Z_scope.
 
@@ -165,3 +165,28 @@ Definition show_case (c : case) :=
 (* calendar check used by the harness: months of a list of local second stamps *)
 Definition check_months (c : list (Z * Z)) : bool :=
   forallb (fun '(secs, m) => month_of_local secs =? m) c.
+
+(* ---------------- daily / hourly rows handed to the billing classes ---------------- *)
+
+(* within 1e-9 relative: the code sums and spreads in binary64, the model in exact rationals *)
+Definition q_close (a b : Q) : bool :=
+  Qle_bool (Qabs (a - b)) ((1 # 1000000000) * (Qabs a + 1)).
+
+(* the days of the span with the values supplied, and per day what the frame carries:
+   None = the day is not a row of the frame (trimmed by from_series), Some None = NaN, Some (Some q) = a usage value *)
+Definition brcase := (list dayrow * list (option (option Q)))%type.
+
+Fixpoint agree_rows (m : list (option Q)) (seen : list (option (option Q))) : bool :=
+  match m, seen with
+  | [], [] => true
+  | a :: m', s :: seen' =>
+      match s with
+      | None => true
+      | Some None => match a with None => true | Some _ => false end
+      | Some (Some q) => match a with Some x => q_close x q | None => false end
+      end && agree_rows m' seen'
+  | _, _ => false
+  end.
+
+Definition check_billing_rows (c : brcase) : bool :=
+  agree_rows (spread gen_billing_month_min_count (fst c)) (snd c).
